@@ -90,7 +90,12 @@ async def sim_process(
     Coroutine running the simulator *sim*.
     """
     sim.started = True
-    sim.rt_start = rt_start = perf_counter()
+    # run() has set the start of the real-time clock for all simulators
+    # already; moving it now would let this simulator's progress go
+    # backwards if another simulator's process has advanced it before.
+    if getattr(sim, "rt_start", None) is None:
+        sim.rt_start = perf_counter()
+    rt_start = sim.rt_start
 
     try:
         advance_progress(sim, world)
